@@ -7,7 +7,9 @@ META = dict(
               "blocked sends, short / delayed receives) of real TcpServerStack + TcpClientStack over socket doubles; "
               "stream invariants checked after every service step",
     text="A real TcpServerStack and a real TcpClientStack are connected over socket doubles; 0-3 packets of 1-3 distinct "
-         "bytes are queued in each direction (quick: 15 shape pairs, thorough: 120). The driver then services the two stacks "
+         "bytes are queued in each direction (quick: 15 shape pairs, thorough: 120), plus shared-packet cases (quick 6, thorough "
+         "28): one Packet instance transmitted twice in a row, and one Packet instance transmitted to two connected clients; "
+         "the transmitted Packet objects must keep their .packed. The driver then services the two stacks "
          "step by step with the same calls serviceAll() makes, except that it drains .rxPkts itself; which stack is serviced "
          "next (default: alternate) and every answer of the two connection sockets (send: any partial count, would-block; "
          "recv: any shorter chunk, would-block although bytes wait) are choice points; all schedules with at most 2 (quick) / "
@@ -50,6 +52,21 @@ def payloads(lens, alphabet):
 
 
 def shape_pairs(tier):
+    """(client->server shape, server->client shape, mode) triples."""
+    return [(a, b, "fresh") for a, b in fresh_pairs(tier)] + shared_cases(tier)
+
+
+def shared_cases(tier):
+    """The same Packet instance referenced by more than one pending transmit."""
+    if tier == "quick":
+        sshapes = [((), (2,)), ((), (3, 1)), ((2,), (2, 1))]
+    else:
+        import itertools
+        sshapes = [((), b) for n in (1, 2) for b in itertools.product((1, 2, 3), repeat=n)] + [((2,), (2, 1)), ((1, 2), (3,))]
+    return [(a, b, m) for m in ("resend", "broadcast") for a, b in sshapes]
+
+
+def fresh_pairs(tier):
     if tier == "quick":
         return [(a, b) for a in QUICK_SHAPES for b in QUICK_SHAPES if a or b]
     import itertools
@@ -87,52 +104,82 @@ def where_of(ex):
     return name
 
 
-def execute(ch, cshape, sshape, part, states):
-    """One schedule.  Returns None or (kind, what)."""
+def execute(ch, cshape, sshape, part, states, mode="fresh"):
+    """One schedule.  Returns None or (kind, what, log, fn).
+    mode "fresh": one client, a fresh Packet per transmit.
+    mode "resend": one client; the first packet of each direction is ONE Packet instance transmitted twice in a row.
+    mode "broadcast": two clients; every server packet is ONE Packet instance transmitted to both peers; the
+    client->server packets come from the first client."""
     S, P = M["stacking"], M["packeting"]
     fn = net.FakeNet(chooser=ch)
     FSM.net = fn
     ck = net.clock()
+    nclients = 2 if mode == "broadcast" else 1
     cq = payloads(cshape, ALPHA)
     sq = payloads(sshape, BETA)
-    ctotal, stotal = b"".join(cq), b"".join(sq)
+    if mode == "resend":
+        cq = cq[:1] + cq
+        sq = sq[:1] + sq
     log = []
     step_name = "setup"
     try:
         ss = S.TcpServerStack(stamper=ck, ha=("", PORT), name="server")
-        cs = S.TcpClientStack(stamper=ck, ha=(net.LOOP, PORT), name="client")
-        cs.serviceConnect()
-        if not cs.handler.connected:
-            raise core.BrokenCheck("client stack did not connect over ideal doubles")
+        clients = []
+        for i in range(nclients):
+            cs = S.TcpClientStack(stamper=ck, ha=(net.LOOP, PORT), name="client%d" % i)
+            cs.serviceConnect()
+            if not cs.handler.connected:
+                raise core.BrokenCheck("client stack did not connect over ideal doubles")
+            clients.append(cs)
         ss.serviceConnects()
-        ca = cs.handler.ca
-        if list(ss.handler.ixes.keys()) != [ca]:
-            raise Bad("no-connection", "server stack holds %r after the client at %r connected"
-                      % (list(ss.handler.ixes.keys()), ca))
-        ix = ss.handler.ixes[ca]
-        csock, ssock = cs.handler.cs, ix.cs
-        for d in cq:
-            cs.transmit(P.Packet(stack=cs, packed=d))
-        for d in sq:
-            ss.transmit(P.Packet(stack=ss, packed=d), ca)
+        cas = [cs.handler.ca for cs in clients]
+        if list(ss.handler.ixes.keys()) != cas:
+            raise Bad("no-connection", "server stack holds %r after the clients at %r connected"
+                      % (list(ss.handler.ixes.keys()), cas))
+        ixs = [ss.handler.ixes[ca] for ca in cas]
+        csocks = [cs.handler.cs for cs in clients]
+        ssocks = [ix.cs for ix in ixs]
+        made = []              # (Packet, payload it was created with): the caller's objects must stay intact
+        ctotals = [b"".join(cq)] + [b""] * (nclients - 1)
+        stotals = [b"".join(sq)] * nclients
+        prev = None
+        for k, d in enumerate(cq):
+            pk = prev if (mode == "resend" and k == 1) else P.Packet(stack=clients[0], packed=d)
+            prev = pk
+            if not (mode == "resend" and k == 1):
+                made.append((pk, d))
+            clients[0].transmit(pk)
+        prev = None
+        for k, d in enumerate(sq):
+            pk = prev if (mode == "resend" and k == 1) else P.Packet(stack=ss, packed=d)
+            prev = pk
+            if not (mode == "resend" and k == 1):
+                made.append((pk, d))
+            for ca in cas:     # broadcast: the same instance goes to every peer
+                ss.transmit(pk, ca)
         menu = net.Menu(send_partial=True, send_block=True, recv_split=True, recv_block=True)
-        csock.menu = menu
-        ssock.menu = menu
-        crx, srx = [], []      # packets delivered to the client / server application
-        horizon = 2 * (len(cq) + len(sq)) + 2 * ch_bound(ch) + 6
-        turn = 0               # 0 client, 1 server
+        for sk in csocks + ssocks:
+            sk.menu = menu
+        crx = [[] for _ in clients]      # packets delivered to each client application
+        srx = [[] for _ in clients]      # packets delivered to the server application, per connection
+        nsides = nclients + 1
+        horizon = nsides * (len(cq) + len(sq) * nclients + ch_bound(ch) + 3)
+        names = ["client"] if nclients == 1 else ["0client", "1client"]
+        names.append("server")
+        turn = 0
         for step in range(horizon):
-            side = turn if ch.choose(2, "who", 0, 1) == 0 else 1 - turn
-            turn = 1 - side
-            step_name = "service(%s)" % ("client", "server")[side]
-            log.append(("client", "server")[side])
-            if side == 0:
+            side = (turn + ch.choose(nsides, "who", 0, 1)) % nsides
+            turn = (side + 1) % nsides
+            step_name = "service(%s)" % names[side]
+            log.append(names[side])
+            if side < nclients:
+                cs = clients[side]
                 cs.serviceConnect()
                 if not cs.handler.cutoff and cs.handler.connected:
                     cs.serviceReceives()
                     cs.serviceTxPkts()
                 while cs.rxPkts:
-                    crx.append(bytes(cs.rxPkts.popleft().packed))
+                    crx[side].append(bytes(cs.rxPkts.popleft().packed))
             else:
                 ss.serviceConnects()
                 ss.handler.serviceReceivesAllIx()
@@ -141,34 +188,46 @@ def execute(ch, cshape, sshape, part, states):
                 ss.handler.serviceTxesAllIx()
                 while ss.rxPkts:
                     pk, ha = ss.rxPkts.popleft()
-                    if ha != ca:
-                        raise Bad("wrong-source", "server packet attributed to %r, connection is %r" % (ha, ca))
-                    srx.append(bytes(pk.packed))
+                    if ha not in cas:
+                        raise Bad("wrong-source", "server packet attributed to %r, connections are %r" % (ha, cas))
+                    srx[cas.index(ha)].append(bytes(pk.packed))
             part.transitions += 1
             # --- invariants after every step
-            if bytes(csock.sent) != ctotal[:len(csock.sent)]:
-                raise Bad("client-tx-not-a-prefix", "client socket accepted %r, queued %r" % (bytes(csock.sent), ctotal))
-            if bytes(ssock.sent) != stotal[:len(ssock.sent)]:
-                raise Bad("server-tx-not-a-prefix", "server socket accepted %r, queued %r" % (bytes(ssock.sent), stotal))
-            got = b"".join(srx)
-            if got != bytes(ssock.recvd)[:len(got)] or len(got) + len(ix.rxbs) != len(ssock.recvd):
-                raise Bad("server-rx-packets", "server socket returned %r, packets %r + buffer %r"
-                          % (bytes(ssock.recvd), srx, bytes(ix.rxbs)))
-            got = b"".join(crx)
-            if got != bytes(csock.recvd)[:len(got)] or len(got) + len(cs.rxbs) != len(csock.recvd):
-                raise Bad("client-rx-packets", "client socket returned %r, packets %r + buffer %r"
-                          % (bytes(csock.recvd), crx, bytes(cs.rxbs)))
-            st = (len(csock.sent), len(ssock.sent), len(csock.recvd), len(ssock.recvd), len(csock.inbox), len(ssock.inbox),
-                  len(cs.txPkts), len(cs.txbs), len(ss.txPkts), tuple(len(x) for x in ix.txes), len(ix.rxbs),
-                  len(cs.rxbs), len(crx), len(srx), turn, cshape, sshape)
+            tag = (lambda i: "" if nclients == 1 else " %d" % i)
+            for i in range(nclients):
+                csock, ssock, ix, cs = csocks[i], ssocks[i], ixs[i], clients[i]
+                if bytes(csock.sent) != ctotals[i][:len(csock.sent)]:
+                    raise Bad("client-tx-not-a-prefix", "client%s socket accepted %r, queued %r"
+                              % (tag(i), bytes(csock.sent), ctotals[i]))
+                if bytes(ssock.sent) != stotals[i][:len(ssock.sent)]:
+                    raise Bad("server-tx-not-a-prefix", "server socket to client%s accepted %r, queued %r"
+                              % (tag(i), bytes(ssock.sent), stotals[i]))
+                got = b"".join(srx[i])
+                if got != bytes(ssock.recvd)[:len(got)] or len(got) + len(ix.rxbs) != len(ssock.recvd):
+                    raise Bad("server-rx-packets", "server socket%s returned %r, packets %r + buffer %r"
+                              % (tag(i), bytes(ssock.recvd), srx[i], bytes(ix.rxbs)))
+                got = b"".join(crx[i])
+                if got != bytes(csock.recvd)[:len(got)] or len(got) + len(cs.rxbs) != len(csock.recvd):
+                    raise Bad("client-rx-packets", "client%s socket returned %r, packets %r + buffer %r"
+                              % (tag(i), bytes(csock.recvd), crx[i], bytes(cs.rxbs)))
+            for pk, d in made:
+                if bytes(pk.packed) != d:
+                    raise Bad("packet-mutated", "a transmitted Packet was created with packed=%r and now holds %r"
+                              % (d, bytes(pk.packed)))
+            st = tuple((len(csocks[i].sent), len(ssocks[i].sent), len(csocks[i].recvd), len(ssocks[i].recvd),
+                        len(csocks[i].inbox), len(ssocks[i].inbox), len(clients[i].txPkts), len(clients[i].txbs),
+                        tuple(len(x) for x in ixs[i].txes), len(ixs[i].rxbs), len(clients[i].rxbs), len(crx[i]), len(srx[i]))
+                       for i in range(nclients)) + (len(ss.txPkts), turn, cshape, sshape, mode)
             states.add(hash(st))
-            done = (bytes(csock.sent) == ctotal and bytes(ssock.sent) == stotal and not csock.inbox and not ssock.inbox
-                    and b"".join(srx) == ctotal and b"".join(crx) == stotal)
+            done = all(bytes(csocks[i].sent) == ctotals[i] and bytes(ssocks[i].sent) == stotals[i]
+                       and not csocks[i].inbox and not ssocks[i].inbox
+                       and b"".join(srx[i]) == ctotals[i] and b"".join(crx[i]) == stotals[i] for i in range(nclients))
             if done:
-                part.outcome("delivered in %d steps" % (step + 1))
+                part.outcome("%s: delivered in %d steps" % (mode, step + 1))
                 return None
-        raise Bad("not-delivered", "after %d service steps: client accepted %r of %r, server accepted %r of %r, server "
-                  "packets %r, client packets %r" % (horizon, bytes(csock.sent), ctotal, bytes(ssock.sent), stotal, srx, crx))
+        raise Bad("not-delivered", "after %d service steps: clients accepted %r of %r, server accepted %r of %r, server "
+                  "packets %r, client packets %r" % (horizon, [bytes(x.sent) for x in csocks], ctotals,
+                                                     [bytes(x.sent) for x in ssocks], stotals, srx, crx))
     except Bad as b:
         return (b.kind, "%s: %s" % (step_name, b.what), log, fn)
     except core.BrokenCheck:
@@ -201,12 +260,12 @@ def replay(path):
     r = d["replay"]
     if d.get("tier") in BOUND:
         core.TIER = d["tier"]          # the horizon depends on the tier's deviation bound
-    p = work((tuple(r["shapes"][0]), tuple(r["shapes"][1])), replay=r["choices"])
+    p = work((tuple(r["shapes"][0]), tuple(r["shapes"][1]), r.get("mode", "fresh")), replay=r["choices"])
     return finish_replay("C36", path, p)
 
 
 def work(pair, replay=None):
-    cshape, sshape = pair
+    cshape, sshape, mode = pair
     init()
     p = core.Part()
     states = set()
@@ -215,7 +274,7 @@ def work(pair, replay=None):
 
     def run(ch):
         with core.watchdog(20):      # a service call that never returns is a broken run, not a slow one
-            res = execute(ch, cshape, sshape, p, states)
+            res = execute(ch, cshape, sshape, p, states, mode)
         p.traces += 1
         p.evaluations += 1
         if res is not None:
@@ -226,11 +285,15 @@ def work(pair, replay=None):
             if kind not in best or rank < best[kind][0]:
                 best[kind] = (rank, (
                         "stacks|%s" % kind,
-                        "c2s=%s s2c=%s order=%s answers=%s" % ("/".join(map(str, cshape)) or "-",
-                                                                "/".join(map(str, sshape)) or "-",
-                                                                "".join(x[0] for x in log) or "-", ",".join(answers) or "-"),
-                        "TcpClientStack -> %s, TcpServerStack -> %s: %s" % (payloads(cshape, ALPHA), payloads(sshape, BETA), what),
-                        dict(shapes=[list(cshape), list(sshape)],
+                        "c2s=%s s2c=%s%s order=%s answers=%s" % ("/".join(map(str, cshape)) or "-",
+                                                                  "/".join(map(str, sshape)) or "-",
+                                                                  "" if mode == "fresh" else " mode=%s" % mode,
+                                                                  "".join(x[0] for x in log) or "-", ",".join(answers) or "-"),
+                        "%sTcpClientStack -> %s, TcpServerStack -> %s: %s" % (
+                            dict(fresh="", resend="first packet of each direction is one Packet instance transmitted twice; ",
+                                 broadcast="two clients, each server packet is one Packet instance transmitted to both; ")[mode],
+                            payloads(cshape, ALPHA), payloads(sshape, BETA), what),
+                        dict(shapes=[list(cshape), list(sshape)], mode=mode,
                              client_packets=[x.decode() for x in payloads(cshape, ALPHA)],
                              server_packets=[x.decode() for x in payloads(sshape, BETA)],
                              service_order=log, choices=ch.choices, socket_answers_at_choice_points=answers,
@@ -249,8 +312,8 @@ def work(pair, replay=None):
     for h in states:
         p.keys.add(h.to_bytes(8, "little", signed=True))
     p.notes["dfs executions"] += st["executions"]
-    if cshape == (1, 2):
-        p.sample(dict(client_to_server=cshape, server_to_client=sshape, executions=st["executions"],
+    if cshape == (1, 2) or (mode != "fresh" and sshape == (3, 1)):
+        p.sample(dict(mode=mode, client_to_server=cshape, server_to_client=sshape, executions=st["executions"],
                       max_choice_points=st["max_points"]))
     return p
 
@@ -277,7 +340,8 @@ def run():
     ]
     ck.coverage_extra = dict(deviation_bound=BOUND[core.TIER], shape_pairs=len(pairs))
     return ck.finish(
-        rule="for each of %d (client->server, server->client) packet-size shape pairs: every schedule of service order "
+        rule="for each of %d (client->server, server->client, mode) cases (mode fresh / resend = same Packet instance twice / "
+             "broadcast = same Packet instance to two clients): every schedule of service order "
              "(default alternate) x socket answers (partial send, send would-block, short recv, recv would-block) with "
              "<= %d deviations, horizon 2*packets+2*bound+6 service steps" % (len(pairs), BOUND[core.TIER]),
         exhaustive=False,
